@@ -603,6 +603,10 @@ class BufferAsyncCalls(Generic[T]):
         )
         #: Current task that is waiting for a new element from the queue
         self._getting: Optional['aio.Task[AsyncIterable[T]]'] = None
+        #: Set by :meth:`wait` when it cancels :attr:`_getting` to
+        #: request that the function is run without waiting for the
+        #: timeout, as opposed to the whole task being cancelled
+        self._flush = False
 
     def __call__(self, _arg: T) -> None:
         """
@@ -697,7 +701,8 @@ class BufferAsyncCalls(Generic[T]):
             # _process_queue gets at least one cycle to pull remaining
             # elements off the queue
             await aio.sleep(0)
-            self._getting.cancel()
+            if self._getting.cancel():
+                self._flush = True
         # Wait for the function to finish processing
         await self.event.wait()
 
@@ -727,7 +732,9 @@ class BufferAsyncCalls(Generic[T]):
             try:
                 async for i in iterable:
                     inputs.add(i)
-            except BaseException:  # noqa
+            except BaseException as e:  # noqa
+                if isinstance(e, aio.CancelledError) and _being_cancelled():
+                    raise  # This task is being cancelled, likely shutdown
                 logger.exception("Failed to get args from: %r", iterable)
 
         # Get first element, block infinitely until one appears
@@ -753,7 +760,12 @@ class BufferAsyncCalls(Generic[T]):
             # out or is cancelled, its time to run the function.
             try:
                 await _load_inputs(await self._getting)
-            except (aio.TimeoutError, aio.CancelledError):
+            except aio.TimeoutError:
+                await self._run_func(inputs)
+            except aio.CancelledError:
+                if not self._flush:
+                    raise  # Not cancelled by wait(), most likely shutdown
+                self._flush = False
                 await self._run_func(inputs)
             else:
                 self.q.task_done()
@@ -771,6 +783,8 @@ class BufferAsyncCalls(Generic[T]):
             if inputs:  # Could be empty if all empty iterators
                 await self.func(inputs)
         except BaseException as e:  # noqa
+            if isinstance(e, aio.CancelledError) and _being_cancelled():
+                raise  # This task is being cancelled, likely shutdown
             logging.exception("Failed to run %s, retrying", self.func)
         else:
             self.event.set()
